@@ -50,15 +50,23 @@ if mode=="seeds":
 else:
     pats=sys.argv[2:] or ["/verif/mutants/benign/*.diff"]
     files=sorted(set(f for p in pats for f in glob.glob(p)))
-    bad=0
+    limits=json.load(open("/verif/mutants/benign/KNOWN_LIMITS.json"))
+    bad=0; known=0; stale=[]
     with cf.ThreadPoolExecutor(JOBS) as ex:
         for f,res in zip(files,ex.map(run,files)):
+            name=os.path.basename(f)[:-5]
             if res[1]!="ok":
                 print("!!",os.path.basename(f),res[1]); bad+=1; continue
             _,_,props,rules,lines=res
             if props or rules:
-                bad+=1; print("ALARM ",os.path.basename(f),flush=True)
-                for l in lines: print("   ",l)
-            else: print("silent",os.path.basename(f),flush=True)
-    print("benign: %d, alarming: %d"%(len(files),bad))
-    sys.exit(1 if bad else 0)
+                if name in limits:
+                    known+=1; print("limit ",os.path.basename(f)," ".join(rules),flush=True)
+                else:
+                    bad+=1; print("ALARM ",os.path.basename(f),flush=True)
+                    for l in lines: print("   ",l)
+            else:
+                if name in limits: stale.append(name)
+                print("silent",os.path.basename(f),flush=True)
+    for n in stale: print("STALE-LIMIT",n,"(silent now: remove it from KNOWN_LIMITS.json)")
+    print("benign: %d, silent: %d, known limits alarming: %d, unexpected alarms: %d"%(len(files),len(files)-known-bad,known,bad))
+    sys.exit(1 if bad or stale else 0)
